@@ -47,6 +47,11 @@ class C06(Prop):
             layout = F.gen_fasta(rng)
             yield {"gen": "fasta-derived", "kind": "fasta", "layout": layout, "data": F.render(layout),
                    "buf": rng.choice([1, 3, 7, 250000])}
+        for _ in range(n // 12):
+            # FASTA files the indexer should refuse (a record name twice, nothing but headers ...): whenever it
+            # does hand back an assembly, the AGP written from it (the cache) must still be a valid AGP
+            kind, data = F.malformed(rng)
+            yield {"gen": "fasta-derived/malformed", "kind": "fasta", "layout": None, "data": data, "buf": rng.choice([3, 250000])}
         for _ in range(n // 4):
             # FASTA written with its AGP: gaps longer than the stream buffer, rows of both strands
             from .c14 import gen_rows_over
@@ -230,6 +235,8 @@ class C06(Prop):
                         f"describes {ends}, the FASTA records are {want}")
             return None
         if k in ("fasta", "stream") and "err" in obs["index"]:
+            if case.get("layout") is None:
+                return None      # a malformed file may be refused
             return f"well-formed FASTA rejected: {obs['index']}"
         if k == "cli" and obs["exit"] != 0:
             return f"asm-format exited {obs['exit']}"
@@ -245,7 +252,7 @@ class C06(Prop):
             f = ln.split("\t")
             if len(f) > 2 and not ln.startswith("#"):
                 ends[f[0]] = int(f[2])
-        if k == "fasta":
+        if k == "fasta" and case.get("layout") is not None:
             # the .agp beside an indexed FASTA: every object ends at the record's real length
             for r in case["layout"]["records"]:
                 if ends.get(r["name"]) != len(r["seq"]):
